@@ -164,6 +164,15 @@ def perturbations():
         for i in range(len(k) + 1):
             for c in "a_1e":
                 words.add(k[:i] + c + k[i:])
+        # decorated spellings in the style of GNU alternate keywords (`__const__`, `__inline`): keywords only if listed themselves
+        base = k.strip("_")
+        for pre in ("", "_", "__", "___"):
+            for suf in ("", "_", "__", "___"):
+                words.add(pre + k + suf)
+                words.add(pre + base + suf)
+        words.add(k + k)
+        words.add(k.upper())
+        words.add(k.capitalize())
     words = {w for w in words if w and (w[0].isalpha() or w[0] == "_") and all(ch.isalnum() or ch == "_" for ch in w)}
     # spellings that begin with an encoding prefix followed by nothing special stay identifiers; keep them
     return sorted(words)
